@@ -95,7 +95,10 @@ func (r *recorder) Flush(ctx context.Context, req *spb.FlushRequest) (*spb.Flush
 	return r.impl.Flush(ctx, req)
 }
 
-// node is one server with its in-memory transport.
+// node is one server with its in-memory transport. conn is ONE gRPC channel that lives as long as the node, and
+// every fluent client of every test gets the same stub on it through Connection().WithStub (the way cmd/ccli
+// hands a stub to the suite, but without closing the channel between tests): closing the Modify stream is the
+// client's job (fluent Stop -> client.Close), not a side effect of tearing the channel down.
 type node struct {
 	srv  *server.Server
 	rec  *recorder
